@@ -385,6 +385,20 @@ fn thread_body(sc: &Scenario, t: usize, out: SimStdout, reg: Arc<std::sync::Mute
         }
         return;
     }
+    if sc.handle_per_call[t] && t % 2 == 1 {
+        // a stream built over a *borrowed* shared handle (`AutoStream::never(&mut stdout)`)
+        for call in calls {
+            let mut raw = Seam(out.clone());
+            match sc.mode {
+                0 => run_calls(&mut AutoStream::never(&mut raw), std::slice::from_ref(call)),
+                1 => run_calls(&mut AutoStream::always_ansi(&mut raw), std::slice::from_ref(call)),
+                2 => run_calls(&mut StripStream::new(&mut raw), std::slice::from_ref(call)),
+                3 => run_calls(&mut AutoStream::new(&mut raw, ColorChoice::Never), std::slice::from_ref(call)),
+                _ => run_calls(&mut AutoStream::always(&mut raw), std::slice::from_ref(call)),
+            }
+        }
+        return;
+    }
     let build = |out: &SimStdout| -> Box<dyn Write> {
         let raw = Seam(out.clone());
         match sc.mode {
